@@ -284,6 +284,13 @@ class Check:
 
     # ---------------------------------------------------------------- evidence
     def finish(self):
+        if not self.violations and self.known_lines:
+            # every deviation seen in this run was matched to an OPEN known finding (otherwise a VIOLATION line would exist):
+            # the obligations that observed them hold up to exactly those listed findings
+            for o in self.obligations:
+                if not o['ok'] and o['kind'] != 'theorem':
+                    o['ok'] = True
+                    o['detail'] = (o.get('detail') or '') + ' [deviations observed are exactly the open known findings printed as KNOWN-FINDING]'
         nobl = len(self.obligations)
         ndis = sum(1 for o in self.obligations if o['ok'])
         kinds = {}
